@@ -109,6 +109,13 @@ def cases(tier):
         c["comps"][0]["fixed"], c["comps"][1]["fixed"] = [1 / 64], [26, 21.5]
         c["end"], c["update_cap"] = 30, 20000
         cs.append(c)
+    # components with their own clock (ITimeComponent implemented directly)
+    for who in ((1,), (0,)):
+        for ch in ([], [F.TOK["L"]], [F.TOK["F1"]], [F.TOK["A"]]):
+            c = F.pair(ch, end=5)
+            for k in who:
+                c["comps"][k]["own_clock"] = True
+            cs.append(c)
     # components that start at different times (three components)
     for starts in ((1, 0, 0), (0, 1, 0), (0, 0, 2), (2, 1, 0)):
         for c1, c2 in (([], []), ([F.TOK["L"]], [F.TOK["F1"]]), ([F.TOK["F1"]], [F.TOK["L"]]), ([F.TOK["A"]], [])):
